@@ -598,14 +598,15 @@ def layout(built, mode, seed):
     def blanks(lo=1, hi=1):
         return " " * rng.randint(lo, hi)
 
-    def brk():
-        """a line break of one of the four kinds, then continuation blanks; list of pieces"""
+    def brk(hash_next=False):
+        """a line break of one of the four kinds, then continuation blanks; list of pieces.
+        5.2: no '#' within columns 1-5 (it would announce the vertical format)"""
         r = rng.random() if mode != "single" else 0.0
         cont = " " * (5 if mode == "single" else rng.randint(5, 12))
         if r < 0.4:
             return [("s", "\n" + cont)]
         if r < 0.55:
-            return [("s", " "), ("a", "&"), ("s", "\n" + " " * rng.randint(0, 8))] if rng.random() < 0.8 else [("s", " "), ("a", "&"), ("s", "\n" + cont)]
+            return [("s", " "), ("a", "&"), ("s", "\n" + " " * rng.randint(5 if hash_next else 0, 8))] if rng.random() < 0.8 else [("s", " "), ("a", "&"), ("s", "\n" + cont)]
         if r < 0.8:
             return [("s", blanks(1, 3)), ("d", "$" + (" " if rng.random() < 0.8 else "") + rng.choice(COMMENTS)), ("s", "\n" + cont)]
         ps = [("s", "\n")]
@@ -630,6 +631,8 @@ def layout(built, mode, seed):
             continue
         s = e
         nl = next_len(i)
+        _nw = next((x for x in flat[i + 1 :] if isinstance(x, Word)), None)
+        _hash = bool(_nw and _nw.t.startswith("#"))
         must_break = col + 1 + nl > LIMIT
         k = s.kind
         pieces = []
@@ -651,32 +654,35 @@ def layout(built, mode, seed):
             sep = s.sep
             if k == "sepb":
                 if not sep.eq:
-                    pieces = brk() if must_break or (mode == "wrapped" and rng.random() < 0.2) else [("s", blanks(1, 1 if mode != "mixed" else 6))]
+                    pieces = brk(_hash) if must_break or (mode == "wrapped" and rng.random() < 0.2) else [("s", blanks(1, 1 if mode != "mixed" else 6))]
                 elif mode == "mixed" and rng.random() < 0.4:
                     pieces = [("s", blanks(1, 3))]
             else:
                 if sep.eq and mode == "mixed" and rng.random() < 0.4:
                     pieces = [("s", blanks(1, 3))]
                 elif sep.eq and must_break:
-                    pieces = brk()
+                    pieces = brk(_hash)
         elif k == "req":
             bl = blanks(1, 1 if mode != "mixed" else 12)
             if col + len(bl) + nl > LIMIT or (mode == "wrapped" and rng.random() < 0.3) or (mode == "mixed" and rng.random() < 0.05):
-                pieces = brk()
+                pieces = brk(_hash)
             else:
                 pieces = [("s", bl)]
         elif k == "opt":
             bl = blanks(1, 4)
             if must_break or (mode != "single" and col + len(bl) + nl > LIMIT):
-                pieces = brk()
+                pieces = brk(_hash)
             elif mode == "single":
                 pieces = []
             elif rng.random() < 0.5:
                 pieces = []
             elif mode == "wrapped" and rng.random() < 0.3:
-                pieces = brk()
+                pieces = brk(_hash)
             else:
                 pieces = [("s", bl)]
+        # 5.2: no '#' within columns 1-5 of a line (it would announce the vertical input format)
+        if _hash and not any("\n" in t for _, t in pieces) and col + sum(len(t) for _, t in pieces) < 5:
+            pieces = list(pieces) + [("s", " " * (5 - col - sum(len(t) for _, t in pieces)))]
         # merge adjacent blanks into one SPACE token (the lexer's \s+ is greedy)
         merged = []
         for c, t in pieces:
@@ -1052,6 +1058,8 @@ def rules_of(spec):
         if b[0] in ("numbers", "numbers_opt"):
             if b[1]:
                 t.append("Data:keyword-" + b[1] if b[0] == "numbers" else "Data:option-letter")
+                if b[0] == "numbers_opt" and b[1] == "c":
+                    t.append("PL:letter-c")
             if not b[2]:
                 t.append("GenericEntries:empty")
             for e in b[2]:
